@@ -606,3 +606,4 @@ PROPS["C16"]["rule"] += (" crolt part: a third of the jobs are slow (their HTTP 
                          "pass of the firing loop is running.")
 PROPS["C09"]["rule"] += " A 'bulk' operation stores 20-70 facts in one location at once, so that inherited results exceed 64 entries."
 PROPS["C09"]["rule"] += " The parent set is also written and removed as what the manual says it is, an ordinary property fact ({\"!parents\": [...]} / id \"!.parents\")."
+PROPS["C15"]["rule"] += " The actions of scheduled rules report the `location` and `ruleId` bindings they see, which must be those of the ticking rule."
